@@ -19,6 +19,10 @@ ORACLE_MC = T([dict(cfg="MC_Oracle.cfg", timeout=1500)], [dict(cfg="MC_Oracle_bi
 ORACLE_GEN_CFG = "users=2,provs=2,funds=60,maxtimeout=2,price=10" + _NOF15
 ORACLE_SCN = [] if _NOF15 else [dict(file="scenarios/oracle_F15.ndjson", cfg="users=2,provs=2,funds=60,maxtimeout=2,price=10")]
 
+# C11 (finding F7): a short live run whose exchange-rate outcomes straddle the five-minute limit the oracle's
+# module service measures against the host clock; recorded under VERIF_RECORD_DIR and replayed later on replicas.
+CLOCK = dict(binary="oracle", mode="clock", cfg="")
+
 PROPS = {
     "C17": ModuleCheck("oracle", "Oracle.tla", "OracleTrace.tla", "OracleTrace.cfg", ORACLE_CLAUSES_C17,
                        ORACLE_MC, ORACLE_GEN, ORACLE_RND, scenarios=ORACLE_SCN,
